@@ -1,14 +1,9 @@
 (* C15, scanner half: a special-character command {sp} {nil} {\n} {\r} {\t} {lb} {rb} between two stretches
    of text: from lexLeftDelim to the lexText that follows the closing brace. *)
-From Soy Require Import Model.Bytes Model.Utf8 Model.Outcome Model.Token Generated.Tables Model.Lexer Spec.Text
+From Soy Require Import Model.Bytes Model.Utf8 Model.Outcome Model.Token Generated.Tables Model.Lexer Spec.Text Spec.TextBody
   Proofs.Utf8Proofs Proofs.LexerPrim Proofs.LexerStates Proofs.LexTokens Proofs.LexBodyText Proofs.LexBodySeg.
 From Coq Require Import ZifyBool ZifyNat ZifyN Lia.
 Open Scope Z_scope.
-
-(* the commands: name between the braces, text the parser produces *)
-Definition special_cmds : list (bstr * bstr) :=
-  [([115; 112], [32]); ([110; 105; 108], []); ([92; 116], [9]); ([92; 114], [13]); ([92; 110], [10]);
-   ([108; 98], [123]); ([114; 98], [125])]%N.
 
 Lemma special_cmds_table : forall name out, In (name, out) special_cmds ->
   exists t, assoc_s name builtin_idents = Some t /\ assoc t parser_special_chars = Some out /\
